@@ -104,6 +104,9 @@ def team_dir(variant):
                 f.write("only.b={{c|default('x')}}\n")
             with open(os.path.join(t, "sub", "deep.txt"), "w") as f:
                 f.write("deep from B\n")
+            # the same binary file as in base A with other bytes: the later base's copy is the one that is mirrored
+            with open(os.path.join(t, "bin.dat"), "wb") as f:
+                f.write(b"\x00\x01 keystore of base B \xff")
     for name, (bases, vars_) in CARS.items():
         with open(os.path.join(cars, f"{name}.ini"), "w") as f:
             f.write(f"[meta]\ndescription = {name}\ntype = {'car' if bases else 'mixin'}\n")
@@ -185,8 +188,14 @@ def check_case(variant, names, pkeys, data_mode, preserve, res):
     params = {k: PARAMS[k] for k in pkeys}
     ext_data = os.path.join(work, "external-data")
     sibling = os.path.join(node_root, "install", "elasticsearch-8.0.0-data")
+    link_target = os.path.join(work, "mounted-disk")
+    link = os.path.join(work, "data-link")
+    if data_mode == "symlink":
+        # the data path is a symbolic link (e.g. to a mounted disk): deleting it fails, which must not stop the rest of the cleanup
+        os.makedirs(link_target)
+        os.symlink(link_target, link)
     if "data_paths" in params:
-        params["data_paths"] = sibling if data_mode == "sibling" else ext_data
+        params["data_paths"] = sibling if data_mode == "sibling" else (link if data_mode == "symlink" else ext_data)
     want = ref_compose(variant, names, params)
     v = None
     try:
@@ -300,7 +309,7 @@ def check_case(variant, names, pkeys, data_mode, preserve, res):
                         v = ("cleanup-leaves-installation", f"{node_cfg.binary_path} still exists")
                     else:
                         for p in node_cfg.data_paths:
-                            if os.path.exists(p):
+                            if os.path.exists(p) and not os.path.islink(p):
                                 v = ("cleanup-leaves-data-path", f"data path {p} still exists (install dir {node_cfg.binary_path})")
                         unrelated = [p for p in (ext_data, sibling) if p not in node_cfg.data_paths]
                         for p in unrelated:
@@ -334,7 +343,7 @@ def cases(tier):
             for ps in subsets:
                 if tier == "quick" and variant > 0 and len(ps) > 1:
                     continue
-                modes = ["sibling", "external"] if "data_paths" in ps else ["default"]
+                modes = ["sibling", "external", "symlink"] if "data_paths" in ps else ["default"]
                 for dm in modes:
                     for preserve in (False, True):
                         if preserve and (variant > 0 or len(nl) > 2):
